@@ -644,6 +644,14 @@ class Corr(object):
                         self.res.disagreements.append({'stream': stream, 'case': case,
                                                        'model': 'inside the text-level idempotence hypotheses (ascii) but ser(parseText(enc(ser))) != ser',
                                                        'real': 'theorem ser_idempotent_builder / ser_idempotent_parsed_text'})
+                if len(model) >= 17:
+                    insrc, sholds = (str(model[15]) == 'T'), (str(model[16]) == 'T')
+                    self.res.count('theorem-idem-source-domain:%s:%s' % (
+                        stream, 'inside' if insrc else 'no-start-end-fails' if (inbt or inpt) else 'outside'))
+                    if insrc and not sholds:
+                        self.res.disagreements.append({'stream': stream, 'case': case,
+                                                       'model': 'inside the hypotheses of ser_idempotent_*_source (ascii) but ser(parseSource(enc(ser))) != ser',
+                                                       'real': 'theorem ser_idempotent_builder_source / ser_idempotent_parsed_text_source'})
                 continue
             if post == 'reparse':
                 # third field: does `parseText` (no `<a></a>` -> `<a/>`) give the same answer as `parseSource`?
@@ -802,6 +810,21 @@ def builder_output_shape(text):
     return tags
 
 
+def _with_empty_text(tree, rng):
+    """a copy of a builder tree with empty strings among the children (every childless element gets one with
+    probability 1/2: `tag.a('')`)"""
+    if tree['t'] != 'e':
+        return tree
+    kids = []
+    for k in tree['kids']:
+        if rng.random() < 0.3:
+            kids.append({'t': 't', 's': ''})
+        kids.append(_with_empty_text(k, rng))
+    if not kids and rng.random() < 0.5:
+        kids.append({'t': 't', 's': ''})
+    return dict(tree, kids=kids)
+
+
 def shard(arg):
     import random
     from genshi.input import XML
@@ -953,6 +976,18 @@ def shard(arg):
             res.nontrivial.add('tree/' + json.dumps(tree, sort_keys=True)[:200])
         events = list(gen_xml.build(tree).generate())
         corr.add_events(events, case, tag='-builder')
+        if i % 6 == 1:
+            # the same tree with empty strings put in (outside the oracle's domain: XML has no empty text node): the
+            # models on `<a></a>` — serializer, `parseSource` against the real parser chain (EMPTY), the side
+            # condition `noStartEndX` of ser_idempotent_builder_source
+            t2 = _with_empty_text(tree, rng)
+            ev2 = list(gen_xml.build(t2).generate())
+            c2 = {'kind': 'tree-emptytext', 'tree': t2}
+            corr.add_events(ev2, c2, tag='-builder-emptytext')
+            try:
+                corr.add_reparse(''.join(_ser(ev2)), c2, tag='-emptytext')
+            except Exception:  # noqa
+                res.count('tree:serializer-raised')
         if i % 5 == 0:
             corr.add_events(events, case, pref={'u1': 'k', 'u2': '', 'urn:x:y': 'ns1'}, tag='-builder-pref')
         # what the flattener had to make up for this tree (measured on the real output), and the second pass:
